@@ -129,10 +129,41 @@ VH_EXPORT int vp_h13c_cut8(const unsigned char* in, unsigned char* out) { return
 VH_EXPORT int vp_h13c_cut8n(const unsigned char* in, unsigned char* out) { return prop_cut<0, 0>(in, out); }
 VH_EXPORT int vp_h13c_cut16le(const unsigned char* in, unsigned char* out) { return prop_cut<1, 1>(in, out); }
 VH_EXPORT int vp_h13c_cut16be(const unsigned char* in, unsigned char* out) { return prop_cut<2, 1>(in, out); }
+// ---- h13d: "The writer emits exactly the configured encoding and BOM": CEncodedStreamWriter(stream, E, addBom) fed with a UTF-16
+// text of k <= 2 arbitrary Unicode scalars: the bytes in the stream == BOM(E)? ++ reference encoding of the scalars in E.
+template <int E> static inline int prop_writer(const unsigned char* in, unsigned char* out) {
+	bool bom = (in[1] & 1) != 0; size_t k = in[2] % 3;
+	uint32_t c[2] = { vh::rd<uint32_t>(in + 3) & 0x1FFFFF, vh::rd<uint32_t>(in + 7) & 0x1FFFFF };
+	uint16_t u[4]; size_t nu = 0; for (size_t i = 0; i < 2; i++) if (i < k) nu += ref::enc_utf16(c[i], u + nu);
+	char16_t text[4]; for (size_t i = 0; i < 4; i++) text[i] = i < nu ? (char16_t)u[i] : u'x';
+	static char sbuf[24]; for (size_t i = 0; i < 24; i++) sbuf[i] = 0;
+	vh::MemOStream os(sbuf, 24);
+	verif_symbolic_phase();
+	UtfEncodingErrorCode ec = UtfEncodingErrorCode::Success;
+	int rc = vh::outcome([&] { CEncodedStreamWriter w(os, ENC[E], bom, UtfEncodingErrorPolicy::ThrowError); ec = w.Write(std::u16string_view(text, nu)); });
+	unsigned char want[24]; size_t nw = 0;
+	if (bom) nw += put_bom(want, E);
+	for (size_t i = 0; i < 2; i++) if (i < k) nw += put_scalar(want + nw, c[i], E);
+	out[0] = (unsigned char)rc; out[1] = (unsigned char)ec; out[2] = (unsigned char)os.written(); out[3] = (unsigned char)nw;
+	if (rc != vh::OK || ec != UtfEncodingErrorCode::Success || os.written() != nw || !os.good()) return 0;
+	for (size_t i = 0; i < 24; i++) if (i < nw && (unsigned char)sbuf[i] != want[i]) return 0;
+	return 1;
+}
+VH_EXPORT int va_h13d(const unsigned char* in) { return ref::is_scalar(vh::rd<uint32_t>(in + 3) & 0x1FFFFF) && ref::is_scalar(vh::rd<uint32_t>(in + 7) & 0x1FFFFF); }
+VH_EXPORT int vp_h13d_w8(const unsigned char* in, unsigned char* out) { return prop_writer<0>(in, out); }
+VH_EXPORT int vp_h13d_w16le(const unsigned char* in, unsigned char* out) { return prop_writer<1>(in, out); }
+VH_EXPORT int vp_h13d_w16be(const unsigned char* in, unsigned char* out) { return prop_writer<2>(in, out); }
+VH_EXPORT int vp_h13d_w32le(const unsigned char* in, unsigned char* out) { return prop_writer<3>(in, out); }
+VH_EXPORT int vp_h13d_w32be(const unsigned char* in, unsigned char* out) { return prop_writer<4>(in, out); }
 VH_EXPORT int vp_h13b_utf8(const unsigned char* in, unsigned char* out) { return prop_reader<0>(in, out); }
 VH_EXPORT int vp_h13b_utf16le(const unsigned char* in, unsigned char* out) { return prop_reader<1>(in, out); }
 VH_EXPORT int vp_h13b_utf16be(const unsigned char* in, unsigned char* out) { return prop_reader<2>(in, out); }
 //@ OBL {"name": "h13a_detect", "prop": "vp_h13a_detect", "assume": "va_h13a", "in": 16, "out": 8, "unwind": 24, "fs": 32, "cap_s": 900, "bounds": "5 encodings x BOM on/off x texts of 1..3 arbitrary Unicode scalars (no-BOM texts start with a non-NUL ASCII character and contain no U+0000)", "desc": "DetectEncoding(string_view): detected encoding and data offset"}
+//@ OBL {"name": "h13d_w8", "prop": "vp_h13d_w8", "assume": "va_h13d", "in": 12, "out": 8, "unwind": 8, "unwind_models": 26, "unwind_fn": {"^verif_stream_copy$": 26, "vp_h13d|prop_writer": 26}, "fs": 32, "cap_s": 900, "backends": ["default", "kissat"], "bounds": "BOM on/off x UTF-16 text of k <= 2 arbitrary Unicode scalars, target UTF-8", "desc": "CEncodedStreamWriter: stream bytes == BOM? ++ reference UTF-8 encoding"}
+//@ OBL {"name": "h13d_w16le", "prop": "vp_h13d_w16le", "assume": "va_h13d", "in": 12, "out": 8, "unwind": 8, "unwind_models": 26, "unwind_fn": {"^verif_stream_copy$": 26, "vp_h13d|prop_writer": 26}, "fs": 32, "cap_s": 900, "backends": ["default", "kissat"], "bounds": "BOM on/off x UTF-16 text of k <= 2 arbitrary Unicode scalars, target UTF-16LE", "desc": "CEncodedStreamWriter: stream bytes == BOM? ++ reference UTF-16LE encoding"}
+//@ OBL {"name": "h13d_w16be", "prop": "vp_h13d_w16be", "assume": "va_h13d", "in": 12, "out": 8, "unwind": 8, "unwind_models": 26, "unwind_fn": {"^verif_stream_copy$": 26, "vp_h13d|prop_writer": 26}, "fs": 32, "cap_s": 900, "backends": ["default", "kissat"], "bounds": "BOM on/off x UTF-16 text of k <= 2 arbitrary Unicode scalars, target UTF-16BE", "desc": "CEncodedStreamWriter: stream bytes == BOM? ++ reference UTF-16BE encoding"}
+//@ OBL {"name": "h13d_w32le", "prop": "vp_h13d_w32le", "assume": "va_h13d", "in": 12, "out": 8, "unwind": 8, "unwind_models": 26, "unwind_fn": {"^verif_stream_copy$": 26, "vp_h13d|prop_writer": 26}, "fs": 32, "cap_s": 900, "backends": ["default", "kissat"], "bounds": "BOM on/off x UTF-16 text of k <= 2 arbitrary Unicode scalars, target UTF-32LE", "desc": "CEncodedStreamWriter: stream bytes == BOM? ++ reference UTF-32LE encoding"}
+//@ OBL {"name": "h13d_w32be", "prop": "vp_h13d_w32be", "assume": "va_h13d", "in": 12, "out": 8, "unwind": 8, "unwind_models": 26, "unwind_fn": {"^verif_stream_copy$": 26, "vp_h13d|prop_writer": 26}, "fs": 32, "cap_s": 900, "backends": ["default", "kissat"], "bounds": "BOM on/off x UTF-16 text of k <= 2 arbitrary Unicode scalars, target UTF-32BE", "desc": "CEncodedStreamWriter: stream bytes == BOM? ++ reference UTF-32BE encoding"}
 //@ OBL {"name": "h13c_cut8", "prop": "vp_h13c_cut8", "assume": "va_h13c_8", "in": 12, "out": 8, "unwind": 8, "unwind_models": 20, "unwind_fn": {"^verif_stream_copy$": 20, "vp_h13c|prop_cut": 18}, "fs": 32, "cap_s": 3600, "mem_gb": 40, "tier": "open", "backends": ["default", "kissat"], "bounds": "UTF-8 stream BOM + 'a' + one multi-byte scalar cut at every byte 0..len, both policies, target char16_t, chunk 32", "desc": "CEncodedStreamReader on a stream that ends inside a character: DecodeError (ThrowError) or mark (Skip), the read loop ends"}
 //@ OBL {"name": "h13c_cut8n", "prop": "vp_h13c_cut8n", "assume": "va_h13c_8", "in": 12, "out": 8, "unwind": 8, "unwind_models": 20, "unwind_fn": {"^verif_stream_copy$": 20, "vp_h13c|prop_cut": 18}, "fs": 32, "cap_s": 3600, "mem_gb": 40, "tier": "open", "backends": ["default", "kissat"], "bounds": "UTF-8 stream without BOM: 'a' + one multi-byte scalar cut at every byte 0..len, both policies, target char16_t, chunk 32", "desc": "CEncodedStreamReader on a stream that ends inside a character: DecodeError (ThrowError) or mark (Skip), the read loop ends"}
 //@ OBL {"name": "h13c_cut16le", "prop": "vp_h13c_cut16le", "assume": "va_h13c_16", "in": 12, "out": 8, "unwind": 8, "unwind_models": 20, "unwind_fn": {"^verif_stream_copy$": 20, "vp_h13c|prop_cut": 18}, "fs": 32, "cap_s": 3600, "mem_gb": 40, "tier": "open", "backends": ["default", "kissat"], "bounds": "UTF-16LE stream BOM + 'a' + one supplementary scalar cut after 0, 1 or 2 code units, both policies", "desc": "same for UTF-16LE (lone high surrogate at the end of the stream)"}
@@ -149,3 +180,6 @@ VH_EXPORT int vp_h13b_utf16be(const unsigned char* in, unsigned char* out) { ret
 //@ VEC h13c_cut8 0001024af60100000000000000
 //@ VEC h13c_cut16le 0003024af60100000000000000
 //@ VEC h13c_cut16be 0000044af60100000000000000
+//@ VEC h13d_w8 000102e9000000ac20000000
+//@ VEC h13d_w16le 0001024af6010041000000
+//@ VEC h13d_w32be 000001ffff000000000000
